@@ -550,6 +550,48 @@ vf::Result sub_D3(uint16_t op, uint16_t x, uint64_t seed) {
     return vf::Result::pass();
 }
 
+// D4: the loop fields of stt2 / icr stay one-bit / three-bit views while block repeats end: with d active frames (d = 1..4), the
+// innermost one runs out at a nop (or is left with `break`); afterwards bcn = d - 1, lp = (d - 1 != 0), and both words read that
+vf::Result sub_D4(unsigned d, unsigned how, uint64_t seed) {
+    icase::Machine& m = sut();
+    icase::ICase c;
+    c.st = gen_plain_state(seed);
+    for (int i = 0; i < 3; ++i)
+        c.st[flat::F_ip + i] = 0;
+    c.st[flat::F_ipv] = 0;
+    c.st[flat::F_ie] = 0;
+    d = 1 + (d - 1) % 4;
+    c.st[flat::F_bcn] = d;
+    c.st[flat::F_lp] = 1;
+    static const int brk = optable::find_word("break_()", {});
+    const bool use_break = how == 1 && brk >= 0;
+    c.opcode = use_break ? (uint16_t)brk : 0x0000;
+    c.expansion = 0x0000;
+    if (!use_break) { // the innermost block ends at this nop and has no pass left
+        c.st[flat::F_bk_end + (d - 1)] = c.st[flat::F_pc];
+        c.st[flat::F_bk_lc + (d - 1)] = 0;
+    }
+    icase::IResult r = m.exec(c);
+    if (r.outcome != 0)
+        return vf::Result::pass();
+    flat::State want = c.st;
+    want[flat::F_pc] = c.st[flat::F_pc] + 1;
+    want[flat::F_bcn] = d - 1;
+    want[flat::F_lp] = d - 1 != 0;
+    const std::string what = std::string(use_break ? "break" : "the innermost block running out") + " with " + std::to_string(d) + " active frame(s)";
+    if (!(r.after == want)) {
+        std::string df = flat::diff(r.after, want);
+        return vf::Result::fail("C20:D4:loopstate:" + df.substr(0, df.find(':')), "after " + what + " the loop state is not (bcn - 1, lp = bcn - 1 != 0) (got vs expected) " + df);
+    }
+    for (int w = 0; w < NW; ++w) {
+        uint16_t real = m.f.pseudo_get(m.core, w), model = layout::read(w, want);
+        if (real != model)
+            return vf::Result::fail(std::string("C20:D4:view:") + layout::words()[w].name, "after " + what + " the word " + layout::words()[w].name + " reads " + vf::hex(real) +
+                                                                                          " but must read " + vf::hex(model));
+    }
+    return vf::Result::pass();
+}
+
 // generator leg: the registers the disassembler names for a vector are the ones the generator pinned into the windows
 vf::Result sub_D2gen(const std::vector<uint8_t>& bytes) {
     TestCase tc;
@@ -606,6 +648,8 @@ vf::Result run_body(const std::string& body) {
         return sub_D2m((uint16_t)a, (uint16_t)b, c);
     if (t[0] == "D3")
         return sub_D3((uint16_t)a, (uint16_t)b, c);
+    if (t[0] == "D4")
+        return sub_D4((unsigned)a, (unsigned)b, c);
     return vf::Result::pass();
 }
 
@@ -695,6 +739,19 @@ int main(int argc, char** argv) {
         }
     }
     vf::klass("D3: instructions after which all 19 words were re-read", d3);
+    // D4: loop exits at every depth, by running out and by break
+    {
+        uint64_t d4 = 0;
+        vf::Stream s(vf::mix64(c.seed * 31337 + c.worker));
+        for (int k = 0; k < (thorough ? 4000 : 400); ++k)
+            for (unsigned d = 1; d <= 4; ++d)
+                for (unsigned how = 0; how < 2; ++how) {
+                    uint64_t seed = s.next();
+                    RUN(sub_D4(d, how, seed), body_of("D4", d, how, seed));
+                    ++d4;
+                }
+        vf::klass("D4: block repeat exits (running out / break) at depth 1..4", d4);
+    }
     vf::klass("first words with ar/arp operands", d2forms);
     vf::klass("ar/arp agreement cases (interpreter vs annotated disassembler)", d2);
     // generator leg, one full pass, by worker 0 (every worker in the thorough tier)
